@@ -33,6 +33,68 @@ func runC18(c *core.Ctx, r *core.Reporter) {
 	c18total(c, r)
 	c18frame(c, r)
 	c18rootback(c, r)
+	c18conv(c, r)
+}
+
+// c18conv: in the Go data bridge an integer becomes a Lisp integer through value-preserving conversions only.
+func c18conv(c *core.Ctx, r *core.Reporter) {
+	const rule = "C18.conv"
+	r.Rule(rule, "in SimpleObject every conversion of a Go integer into the Lisp number it builds is value preserving (the target is at least as wide and can represent the source's sign): a narrowing conversion such as an 8-bit type for a uint16 silently changes the value that later comes back from Simplify", 8)
+	fnObj := c.LookupFunc("", "SimpleObject")
+	if fnObj == nil {
+		r.Undecided(rule, "slip.SimpleObject", "-", "anchor does not resolve")
+		return
+	}
+	fn := c.SSAFunc(fnObj)
+	type ik struct {
+		signed bool
+		bits   int
+	}
+	kind := func(t types.Type) (ik, bool) {
+		bt, ok := t.Underlying().(*types.Basic)
+		if !ok {
+			return ik{}, false
+		}
+		switch bt.Kind() {
+		case types.Int, types.Int64:
+			return ik{true, 64}, true
+		case types.Int32:
+			return ik{true, 32}, true
+		case types.Int16:
+			return ik{true, 16}, true
+		case types.Int8:
+			return ik{true, 8}, true
+		case types.Uint, types.Uint64, types.Uintptr:
+			return ik{false, 64}, true
+		case types.Uint32:
+			return ik{false, 32}, true
+		case types.Uint16:
+			return ik{false, 16}, true
+		case types.Uint8:
+			return ik{false, 8}, true
+		}
+		return ik{}, false
+	}
+	for _, b := range fn.Blocks {
+		for _, in := range b.Instrs {
+			mi, ok := in.(*ssa.MakeInterface)
+			if !ok || !core.IsNamed(mi.Type(), core.SlipPath, "Object") {
+				continue
+			}
+			cv, ok := mi.X.(*ssa.Convert)
+			if !ok {
+				continue
+			}
+			from, ok1 := kind(cv.X.Type())
+			to, ok2 := kind(cv.Type())
+			if !ok1 || !ok2 {
+				continue
+			}
+			lossless := (from.signed == to.signed && to.bits >= from.bits) || (!from.signed && to.signed && to.bits > from.bits)
+			key := fmt.Sprintf("slip.SimpleObject|%s -> %s", types.TypeString(cv.X.Type(), nil), types.TypeString(cv.Type(), func(p *types.Package) string { return p.Name() }))
+			r.Decide(lossless, rule, key, c.Pos(cv.Pos()), fmt.Sprintf("conversion is value preserving: %v", lossless))
+		}
+	}
 }
 
 // c18rootback: the JSONPath editing operations of ojg return the (possibly new) root: removing from or
